@@ -389,6 +389,73 @@ func wrapRun(t *testing.T, p *world.PKI, cc cfgCase, clientSends bool, ops strin
 	return o
 }
 
+// lossRun: one handshake datagram of X (its k-th) is lost or duplicated, so that a genuine retransmission
+// (new record numbers) of X's or the peer's flight happens; X writes as soon as its own handshake call has
+// returned (possibly before the peer is done: the final flight may be the lost one), again after both sides
+// are done, and once more after a further second of fake time. Every record of the execution is audited.
+func lossRun(t *testing.T, p *world.PKI, cc cfgCase, clientSends bool, k int, act world.Action, seed uint64) run.Outcome {
+	var o run.Outcome
+	world.Run(t, seed, func(w *world.World) {
+		pr, err := cc.v.Setup(w, p)
+		if err != nil {
+			o.Skip = true
+			return
+		}
+		n := world.NewNet(w, world.ClientAddr, world.Mask{{FromClient: clientSends, Idx: k, Act: act}})
+		x := pr.S
+		if clientSends {
+			x = pr.C
+		}
+		w.CIDLenHint = pr.CIDLenFor
+		writes := 0
+		write := func(tag string) {
+			op := w.Go("Write-"+tag, func(*world.Op) error { _, e := x.Conn.Write([]byte("payload-" + tag)); return e })
+			_ = n.Pump(5*time.Second, op.Done)
+			if _, e := op.Result(); op.Done() && e == nil {
+				writes++
+			}
+		}
+		_ = n.Pump(20*time.Second, func() bool { return x.HS.Done() || pr.BothDone() })
+		early := false
+		if d, e := x.HS.Result(); d && e == nil && !pr.BothDone() {
+			early = true
+			write("early")
+		}
+		if err := n.Pump(30*time.Second, pr.BothDone); err != nil || !pr.BothOK() {
+			o.Skip = true
+			o.Class = "handshake-failed"
+			pr.CloseAll()
+			return
+		}
+		write("after")
+		_ = n.Pump(1500*time.Millisecond, func() bool { return false })
+		write("late")
+		n.Flush()
+		dec := pr.NewDecoder()
+		recs := dec.Poll()
+		o.NonTrivial = n.Faulted > 0
+		var viol []string
+		counts := map[string]int{}
+		for _, e := range []*world.Endpoint{pr.C, pr.S} {
+			v, c := monitor(recs, e.Addr)
+			if v != "" {
+				viol = append(viol, v)
+			}
+			for kk, nn := range c {
+				counts[kk] += nn
+			}
+		}
+		o.Counters = counts
+		o.Class = fmt.Sprintf("loss fault-fired=%v early-write=%v writes-ok=%d", n.Faulted > 0, early, writes)
+		if len(viol) > 0 {
+			o.Violation = fmt.Sprintf("config=%s sender=%s handshake datagram %d %s: %s", cc.name, x.Name, k, act, strings.Join(viol, "; "))
+		}
+		o.Sample = map[string]any{"config": cc.name, "sender": x.Name, "fault": fmt.Sprintf("%d:%s", k, act), "records_checked": counts["records"], "class": o.Class}
+		pr.CloseAll()
+	})
+	return o
+}
+
 func errClasses(errs []error) string {
 	s := ""
 	for _, e := range errs {
@@ -444,6 +511,12 @@ func TestC09(t *testing.T) {
 			wrapOps := []string{"wwww", "wrw", "wwrw", "wxw", "wwx", "rww"}
 			if cc.v.V13 {
 				wrapOps = append(wrapOps, "wkw", "wwkw", "kww", "wwk", "wkrw")
+			}
+			for k := 0; k < 8; k++ {
+				for _, act := range []world.Action{world.ActDrop, world.ActDup, world.ActHold3} {
+					cc, clientSends, k, act := cc, clientSends, k, act
+					cases = append(cases, run.Case{ID: fmt.Sprintf("%s/%s/loss-%d-%s", cc.name, side, k, act), Run: func(t *testing.T) run.Outcome { return lossRun(t, p, cc, clientSends, k, act, env.Seed+1) }})
+				}
 			}
 			for _, ops := range wrapOps {
 				cc, clientSends, ops := cc, clientSends, ops
